@@ -78,7 +78,7 @@ fn parse_both(rep: &mut Report, bytes: &[u8], what: &str) -> Option<Result<Parse
         }
         (Ok(a), Ok(b), Ok(c)) => {
             let eq = |a: &Result<(Vec<[f32; 3]>, Vec<[usize; 3]>, bool), String>, b: &Result<(Vec<[f32; 3]>, Vec<[usize; 3]>, bool), String>| match (a, b) {
-                (Ok(x), Ok(y)) => x.0.iter().map(|p| p.map(f32::to_bits)).eq(y.0.iter().map(|p| p.map(f32::to_bits))) && x.1 == y.1,
+                (Ok(x), Ok(y)) => x.0.len() == y.0.len() && x.0.iter().zip(&y.0).all(|(p, q)| same_pt(p, q)) && x.1 == y.1,
                 (Err(_), Err(_)) => true,
                 _ => false,
             };
@@ -104,14 +104,36 @@ fn parse_both(rep: &mut Report, bytes: &[u8], what: &str) -> Option<Result<Parse
     }
 }
 
+/// Coordinate equality "as written": the same bits, except that the sign of a
+/// zero is not a value (−0 and 0 denote the same coordinate).
+fn same_coord(a: f32, b: f32) -> bool {
+    a.to_bits() == b.to_bits() || (a == 0.0 && b == 0.0)
+}
+fn same_pt(a: &[f32; 3], b: &[f32; 3]) -> bool {
+    (0..3).all(|k| same_coord(a[k], b[k]))
+}
+
 /// A coordinate literal together with the f32 it denotes (known a priori).
+thread_local! {
+    /// Set while a file is being generated that may use spellings beyond
+    /// "plain or exponent notation" (a leading '+', a bare trailing or leading
+    /// point): such a file may be rejected; if it is accepted the values count.
+    static EXOTIC: std::cell::Cell<bool> = const { std::cell::Cell::new(false) };
+    static USED_EXOTIC: std::cell::Cell<bool> = const { std::cell::Cell::new(false) };
+}
+
 fn coord(rng: &mut Rng) -> (String, f32) {
     match rng.below(10) {
         8 => {
             // spellings of the same number that differ only in syntax
             let k = rng.int(0, 999) as f64;
             let neg = rng.bool();
-            let (lit, v): (String, f64) = match rng.below(9) {
+            let exotic = EXOTIC.with(|e| e.get());
+            let form = if exotic { rng.below(9) } else { [0u64, 1, 2, 6, 7, 8][rng.usize(6)] };
+            if matches!(form, 3 | 4 | 5) {
+                USED_EXOTIC.with(|e| e.set(true));
+            }
+            let (lit, v): (String, f64) = match form {
                 0 => ("0".into(), 0.0),
                 1 => ("0.0".into(), 0.0),
                 2 => ("0e0".into(), 0.0),
@@ -123,7 +145,11 @@ fn coord(rng: &mut Rng) -> (String, f32) {
                 _ => (format!("00{k}.50"), k + 0.5),         // leading zeros
             };
             // −0 keeps its sign bit
-            (if neg { format!("-{lit}") } else if rng.chance(1, 8) { format!("+{lit}") } else { lit }, if neg { -(v as f32) } else { v as f32 })
+            let plus = exotic && !neg && rng.chance(1, 8);
+            if plus {
+                USED_EXOTIC.with(|e| e.set(true));
+            }
+            (if neg { format!("-{lit}") } else if plus { format!("+{lit}") } else { lit }, if neg { -(v as f32) } else { v as f32 })
         }
         9 => {
             // exponent notation over the whole finite range, subnormals included
@@ -226,6 +252,9 @@ fn ws(rng: &mut Rng, s: &mut String) {
 }
 
 fn wellformed_case(rng: &mut Rng, rep: &mut Report, idx: u64) {
+    // one file in eight may use the exotic number spellings
+    EXOTIC.with(|e| e.set(idx % 8 == 3));
+    USED_EXOTIC.with(|e| e.set(false));
     // now and then a mesh whose indices do not fit 8 or 16 bits
     let big_mesh = idx % 2000 == 777;
     let nv = if big_mesh { rng.pick(&[256usize, 257, 65535, 65536, 70000]) } else { rng.below(if idx % 5 == 0 { 200 } else { 24 }) as usize };
@@ -386,12 +415,18 @@ fn wellformed_case(rng: &mut Rng, rep: &mut Report, idx: u64) {
         rep.sample(|| Json::obj().set("input", show(&bytes)));
     }
     let cj = || Json::obj().set("input", show(&bytes)).set("verts", nv).set("faces", nf);
+    let used_exotic = USED_EXOTIC.with(|e| e.get());
+    EXOTIC.with(|e| e.set(false));
+    if used_exotic {
+        rep.count("wellformed.files_with_exotic_number_spellings");
+    }
     match parse_both(rep, &bytes, "well-formed OBJ text") {
         None => {}
+        Some(Err(_)) if used_exotic => rep.count("wellformed.file_with_exotic_number_spellings_rejected(accepted)"),
         Some(Err(e)) => rep.violation("obj.wellformed_rejected", format!("well-formed OBJ rejected: {e}"), cj()),
         Some(Ok((gv, gf))) => {
-            if gv.len() != verts.len() || gv.iter().zip(&verts).any(|(a, b)| a.map(f32::to_bits) != b.map(f32::to_bits)) {
-                let i = gv.iter().zip(&verts).position(|(a, b)| a.map(f32::to_bits) != b.map(f32::to_bits));
+            if gv.len() != verts.len() || gv.iter().zip(&verts).any(|(a, b)| !same_pt(a, b)) {
+                let i = gv.iter().zip(&verts).position(|(a, b)| !same_pt(a, b));
                 rep.violation(
                     "obj.vertices_differ",
                     format!("parsed {} vertices, file lists {}; first difference at {:?}: parsed {:?}, written {:?}", gv.len(), verts.len(), i, i.map(|i| gv[i]), i.map(|i| verts[i])),
@@ -436,24 +471,27 @@ fn reference_obj(bytes: &[u8]) -> Option<Parsed> {
     fn num(t: &str) -> Option<f32> {
         let b = t.as_bytes();
         let mut i = 0;
-        if i < b.len() && (b[i] == b'-' || b[i] == b'+') {
+        // conservative: [-]digits[.digits][e[±]digits] — a leading '+', a bare
+        // trailing or leading point are left unjudged
+        if i < b.len() && b[i] == b'-' {
             i += 1;
         }
         let d0 = i;
         while i < b.len() && b[i].is_ascii_digit() {
             i += 1;
         }
-        let mut digits = i - d0;
+        if i == d0 {
+            return None;
+        }
         if i < b.len() && b[i] == b'.' {
             i += 1;
             let f0 = i;
             while i < b.len() && b[i].is_ascii_digit() {
                 i += 1;
             }
-            digits += i - f0;
-        }
-        if digits == 0 {
-            return None;
+            if i == f0 {
+                return None;
+            }
         }
         if i < b.len() && (b[i] == b'e' || b[i] == b'E') {
             i += 1;
@@ -471,7 +509,8 @@ fn reference_obj(bytes: &[u8]) -> Option<Parsed> {
         if i != b.len() {
             return None;
         }
-        t.parse::<f32>().ok()
+        // a literal beyond the f32 range has no f32 "as written": unjudged
+        t.parse::<f32>().ok().filter(|x| x.is_finite())
     }
     let text = std::str::from_utf8(bytes).ok()?;
     if !text.is_ascii() {
@@ -603,7 +642,7 @@ fn totality_case(rng: &mut Rng, rep: &mut Report, idx: u64) {
             // … and read faithfully
             if let Some((rv, rf)) = reference_obj(&bytes) {
                 rep.count("totality.cross_checked_with_reference_reader");
-                if rv.len() != v.len() || rv.iter().zip(&v).any(|(a, b)| a.map(f32::to_bits) != b.map(f32::to_bits)) {
+                if rv.len() != v.len() || rv.iter().zip(&v).any(|(a, b)| !same_pt(a, b)) {
                     rep.violation("obj.vertices_differ", format!("mutated but well-formed input: parsed {} vertices {:?}…, the reference reader finds {} {:?}…", v.len(), &v[..v.len().min(3)], rv.len(), &rv[..rv.len().min(3)]), Json::obj().set("input", show(&bytes)));
                 } else if rf != f {
                     rep.violation("obj.faces_differ", format!("mutated but well-formed input: parsed faces {:?}…, the reference reader finds {:?}…", &f[..f.len().min(3)], &rf[..rf.len().min(3)]), Json::obj().set("input", show(&bytes)));
@@ -632,12 +671,27 @@ fn pin(bytes: &[u8]) -> Result<(), String> {
     }
 }
 
+/// Error, or a builder all of whose face indices refer to existing vertices.
+fn pin_valid_or_err(bytes: &[u8]) -> Result<(), String> {
+    let mut r2 = Report::new();
+    let r = parse_both(&mut r2, bytes, "pin");
+    match r2.violations.values().next() {
+        None => match r {
+            Some(Ok((v, f))) if f.iter().flatten().any(|i| *i >= v.len()) => Err(format!("accepted with face indices {:?} beyond its {} vertices", f, v.len())),
+            _ => Ok(()),
+        },
+        Some(v) => Err(v.firsts[0].detail.clone()),
+    }
+}
+
 pub fn run(cfg: &Cfg, rep: &mut Report) {
     rep.rule = "faithfulness: random meshes (0..200 vertices, 0..40 triangles) printed with random indentation, blank lines, comments, CR LF, the four index forms and faces before/after/interleaved with vertices; coordinates are literals whose f32 value is known a priori (dyadic rationals in plain and exponent notation, shortest round-trip Display of random f32 bit patterns); totality: mutated seed files with a dictionary of hostile tokens (index 0, negatives, 2^32, 2^64, missing fields, non-ASCII), truncations at every offset, raw random bytes; non-trivial = parses to a non-empty mesh or provokes a violation; distinct by hash of the bytes".into();
     rep.assumptions.push("well-formed text uses LF or CR LF line ends and spaces or tabs between fields (what exporters write); the statement names blank lines, comments and indentation, and a reader that split on single spaces only would be reported by this monitor".into());
     rep.assumptions.push("generated faces are triangles; the parser reads the first three indices of longer faces, which the property does not cover".into());
     rep.pin("F4a.index_zero", pin(b"v 0 0 0\nv 1 0 0\nv 0 1 0\nf 0 1 2\n"));
-    rep.pin("F4a.texcoord_index_zero", pin(b"v 0 0 0\nvt 0 0\nf 1/0 1/1 1/1\n"));
+    // (texcoord/normal indices are parsed but not returned: an error, or a
+    // builder whose position indices are valid, both satisfy the statement)
+    rep.pin("F4a.texcoord_index_zero", pin_valid_or_err(b"v 0 0 0\nvt 0 0\nf 1/0 1/1 1/1\n"));
     rep.pin("F4b.faces_without_vertices", pin(b"f 1 2 3\n"));
 
     rep.run_stream(cfg, 0, "wellformed", cfg.n(60_000, 6_000_000), |rng, i, rep| wellformed_case(rng, rep, i));
@@ -647,7 +701,7 @@ pub fn run(cfg: &Cfg, rep: &mut Report) {
     rep.floor("layout.faces_first", 5_000);
     rep.floor("layout.very_long_lines", 2_000);
     rep.floor("layout.interleaved", 5_000);
-    rep.floor("totality.parsed_ok_with_faces", 4_000);
+    rep.floor("totality.parsed_ok_with_faces", 1_500);
     rep.floor("totality.rejected_with_error", 100_000);
     rep.floor("reader_faults.hard_failure_midstream", 100_000);
     rep.floor("reader_faults.short_reads_with_eintr", 100_000);
